@@ -167,6 +167,11 @@ SYNTAX = {
     "syntax_error": (["    x := ) 1"], [0]),
     "syntax_error_unclosed": (["    y := (1 +", "    z := 2"], [0, 1]),
     "conflict_marker": (["<<<<<<< HEAD"], [0]),
+    # a binary operator as the last token of a line (outside brackets): the error is on that line, whatever the following lines hold
+    "dangling_operator_then_blank_and_comment_lines": (["    b := 1 +", "", "    // note", "", "    c := 2"], [0]),
+    "dangling_operator_then_a_line_that_could_be_an_operand": (["    b := 1 +", "    pr(3)"], [0]),
+    "dangling_boolean_operator": (["    t := true and", "", "", "    u := 3"], [0]),
+    "dangling_comparison_operator": (["    t := 1 <=", "    // c", "    u := 3"], [0]),
 }
 
 
